@@ -142,7 +142,7 @@ func vc09ReadNode(n *vgcNode) *vc09Recovered {
 func vc09DecodeBSI(shard uint64, pos []uint64) map[uint64]int64 {
 	type acc struct {
 		exists, neg bool
-		mag        uint64
+		mag         uint64
 	}
 	m := map[uint64]*acc{}
 	for _, p := range pos {
@@ -945,7 +945,9 @@ func TestVerifC09_CrashPoints(t *testing.T) {
 			if _, ok := err.(*vc09Inconclusive); ok {
 				vc09Die("%v\nhistory: %s", err, h.describe())
 			}
-			t.Fatalf("C09 harness: %v\nhistory: %s", err, h.describe())
+			// a generated write was refused or the run could not be modelled: not a
+			// statement about crash consistency, so never a violation
+			vc09Die("%v\nhistory: %s", err, h.describe())
 		}
 		if v != nil {
 			t.Fatalf("C09 violated [%s]: %s\n%s", v.Class, v.Msg, vc09Describe(run, k))
